@@ -927,3 +927,373 @@ Proof.
   - destruct (covered_honest cfg H r e Hh (sigs_in_cand r e Hin) Hc) as [h [uri [signer [ki [over [rest [Hi [Hf Hcan]]]]]]]].
     exists e, h, uri, signer, ki, over, rest. repeat split; auto.
 Qed.
+
+(* ---------- the unmarshaller reads only what [visible] keeps ---------- *)
+
+Fixpoint vgo (l : list node) : list node :=
+  match l with
+  | [] => []
+  | (El _ t _ _ as k) :: r => if seqb t "Signature" then vgo r else visible k :: vgo r
+  | (EncN _ _ _ as k) :: r => k :: vgo r
+  | _ :: r => vgo r
+  end.
+
+Lemma visible_el ns tag attrs kids :
+  visible (El ns tag attrs kids) = El ns tag attrs (Txt (chardata kids) :: vgo kids).
+Proof. reflexivity. Qed.
+
+Lemma visible_attrs n : node_attrs (visible n) = node_attrs n.
+Proof. destruct n; reflexivity. Qed.
+
+(* predicates that select element children by name, never a Signature *)
+Definition name_pred (p : node -> bool) : Prop :=
+  (forall n, p n = true -> exists ns t a ks, n = El ns t a ks /\ seqb t "Signature" = false) /\
+  (forall ns t a ks ks', p (El ns t a ks) = p (El ns t a ks')).
+
+Lemma named_pred ns tag : seqb tag "Signature" = false -> name_pred (named ns tag).
+Proof.
+  intros Ht. split.
+  - intros n H. destruct n as [n' t a ks| | | |]; simpl in H; try discriminate.
+    exists n', t, a, ks. split; [reflexivity|]. apply andb_prop in H. destruct H as [_ H].
+    apply String.eqb_eq in H. subst. exact Ht.
+  - reflexivity.
+Qed.
+
+Lemma tagged_pred tag : seqb tag "Signature" = false -> name_pred (tagged tag).
+Proof.
+  intros Ht. split.
+  - intros n H. destruct n as [n' t a ks| | | |]; simpl in H; try discriminate.
+    exists n', t, a, ks. split; [reflexivity|]. apply String.eqb_eq in H. subst. exact Ht.
+  - reflexivity.
+Qed.
+
+Lemma filter_vgo p l : name_pred p -> filter p (vgo l) = map visible (filter p l).
+Proof.
+  intros [P1 P2]. induction l as [|k l IH]; [reflexivity|].
+  destruct k as [n t a ks|s| |sh u sg ki ov|cid st q]; cbn [vgo filter].
+  - destruct (seqb t "Signature") eqn:Et.
+    + destruct (p (El n t a ks)) eqn:Ep; [|exact IH].
+      destruct (P1 _ Ep) as [n' [t' [a' [ks' [Heq Hs]]]]]. inversion Heq; subst. congruence.
+    + cbn [filter]. rewrite visible_el at 1. rewrite (P2 n t a _ ks).
+      destruct (p (El n t a ks)); cbn [map]; rewrite IH; reflexivity.
+  - destruct (p (Txt s)) eqn:Ep; [destruct (P1 _ Ep) as [? [? [? [? [Heq _]]]]]; discriminate|exact IH].
+  - destruct (p Cmt) eqn:Ep; [destruct (P1 _ Ep) as [? [? [? [? [Heq _]]]]]; discriminate|exact IH].
+  - destruct (p (SigN sh u sg ki ov)) eqn:Ep; [destruct (P1 _ Ep) as [? [? [? [? [Heq _]]]]]; discriminate|exact IH].
+  - cbn [filter]. destruct (p (EncN cid st q)) eqn:Ep; [destruct (P1 _ Ep) as [? [? [? [? [Heq _]]]]]; discriminate|exact IH].
+Qed.
+
+Lemma chardata_vgo l : chardata (vgo l) = "".
+Proof.
+  induction l as [|k l IH]; [reflexivity|].
+  destruct k as [n t a ks|s| |sh u sg ki ov|cid st q]; cbn [vgo]; try exact IH.
+  destruct (seqb t "Signature"); [exact IH|]. rewrite visible_el. cbn [chardata]. exact IH.
+Qed.
+
+Lemma chardata_visible_kids n : chardata (node_kids (visible n)) = chardata (node_kids n).
+Proof.
+  destruct n as [ns t a ks| | | |]; try reflexivity.
+  rewrite visible_el. cbn [node_kids chardata]. rewrite chardata_vgo. apply app_nil_r_s.
+Qed.
+
+Lemma filter_visible_kids p n : name_pred p -> filter p (node_kids (visible n)) = map visible (filter p (node_kids n)).
+Proof.
+  intros Hp. destruct n as [ns t a ks| | | |]; try reflexivity.
+  rewrite visible_el. cbn [node_kids filter].
+  destruct (p (Txt (chardata ks))) eqn:Ep.
+  - destruct Hp as [P1 _]. destruct (P1 _ Ep) as [? [? [? [? [Heq _]]]]]. discriminate.
+  - apply filter_vgo. exact Hp.
+Qed.
+
+Lemma filter_flat_map {A B} (p : B -> bool) (f : A -> list B) l :
+  filter p (flat_map f l) = flat_map (fun x => filter p (f x)) l.
+Proof. induction l as [|x l IH]; simpl; [reflexivity|]. rewrite filter_app, IH. reflexivity. Qed.
+
+Lemma map_flat_map {A B C} (g : B -> C) (f : A -> list B) l :
+  map g (flat_map f l) = flat_map (fun x => map g (f x)) l.
+Proof. induction l as [|x l IH]; simpl; [reflexivity|]. rewrite map_app, IH. reflexivity. Qed.
+
+Lemma flat_map_map {A B C} (f : B -> list C) (g : A -> B) l :
+  flat_map f (map g l) = flat_map (fun x => f (g x)) l.
+Proof. induction l as [|x l IH]; simpl; [reflexivity|]. rewrite IH. reflexivity. Qed.
+
+Lemma flat_map_ext' {A B} (f g : A -> list B) l : (forall x, f x = g x) -> flat_map f l = flat_map g l.
+Proof. intros H. induction l as [|x l IH]; simpl; [reflexivity|]. rewrite H, IH. reflexivity. Qed.
+
+Lemma last_opt_map {A B} (f : A -> B) l : last_opt (map f l) = option_map f (last_opt l).
+Proof.
+  induction l as [|x l IH]; [reflexivity|]. destruct l as [|y l]; [reflexivity|].
+  change (last_opt (map f (x :: y :: l))) with (last_opt (map f (y :: l))). rewrite IH. reflexivity.
+Qed.
+
+(* K' shows the same named element children as K, made visible *)
+Definition vis_kids (K K' : list node) : Prop :=
+  forall p, name_pred p -> filter p K' = map visible (filter p K).
+Definition vis_merged (m m' : merged) : Prop :=
+  mg_attrs m' = mg_attrs m /\ mg_text m' = mg_text m /\ vis_kids (mg_kids m) (mg_kids m').
+Definition vis_omerged (o o' : option merged) : Prop :=
+  match o, o' with None, None => True | Some m, Some m' => vis_merged m m' | _, _ => False end.
+
+Lemma vis_kids_visible n : vis_kids (node_kids n) (node_kids (visible n)).
+Proof. intros p Hp. apply filter_visible_kids. exact Hp. Qed.
+
+Lemma merge_map_visible els : vis_omerged (merge els) (merge (map visible els)).
+Proof.
+  unfold merge. rewrite last_opt_map. destruct (last_opt els) as [l|]; simpl; [|exact I].
+  repeat split.
+  - rewrite flat_map_map. apply flat_map_ext'. intros x. apply visible_attrs.
+  - apply chardata_visible_kids.
+  - intros p Hp. cbn [mg_kids]. rewrite flat_map_map, !filter_flat_map, map_flat_map.
+    apply flat_map_ext'. intros x. apply filter_visible_kids. exact Hp.
+Qed.
+
+Lemma child_vis p K K' : name_pred p -> vis_kids K K' -> vis_omerged (merge (filter p K)) (merge (filter p K')).
+Proof. intros Hp HK. rewrite (HK p Hp). apply merge_map_visible. Qed.
+
+Lemma sig_false_SCD : seqb "SubjectConfirmationData" "Signature" = false. Proof. reflexivity. Qed.
+
+Lemma un_conf_visible n : un_conf (visible n) = un_conf n.
+Proof.
+  unfold un_conf, child_any.
+  pose proof (child_vis (tagged "SubjectConfirmationData") _ _ (tagged_pred "SubjectConfirmationData" eq_refl) (vis_kids_visible n)) as H.
+  destruct (merge (filter _ (node_kids n))) as [m|], (merge (filter _ (node_kids (visible n)))) as [m'|]; simpl in H; try contradiction; [|reflexivity].
+  destruct H as [Ha _]. rewrite Ha. reflexivity.
+Qed.
+
+Lemma un_audience_visible n : un_audience (visible n) = un_audience n.
+Proof.
+  unfold un_audience, child_any.
+  pose proof (child_vis (tagged "Audience") _ _ (tagged_pred "Audience" eq_refl) (vis_kids_visible n)) as H.
+  destruct (merge (filter _ (node_kids n))) as [m|], (merge (filter _ (node_kids (visible n)))) as [m'|]; simpl in H; try contradiction; [|reflexivity].
+  destruct H as [_ [Ht _]]. exact Ht.
+Qed.
+
+Lemma un_attrvals_visible n : un_attrvals (visible n) = un_attrvals n.
+Proof.
+  unfold un_attrvals. rewrite (filter_visible_kids _ n (tagged_pred "Attribute" eq_refl)), flat_map_map.
+  apply flat_map_ext'. intros at_.
+  rewrite (filter_visible_kids _ at_ (tagged_pred "AttributeValue" eq_refl)), map_map.
+  apply map_ext. intros v. apply chardata_visible_kids.
+Qed.
+
+Lemma map_o_map_ext {A B C} (f : B -> outcome C) (g : A -> B) (h : A -> outcome C) l :
+  (forall x, f (g x) = h x) -> map_o f (map g l) = map_o h l.
+Proof. intros H. induction l as [|x l IH]; simpl; [reflexivity|]. rewrite H, IH. reflexivity. Qed.
+
+(* what is read from an element is read from its visible part *)
+Theorem un_assertion_visible e : un_assertion (visible e) = un_assertion e.
+Proof.
+  destruct e as [ns tag attrs kids| | | |]; try reflexivity.
+  rewrite visible_el. set (K' := Txt (chardata kids) :: vgo kids).
+  assert (HK : vis_kids kids K') by (exact (vis_kids_visible (El ns tag attrs kids))).
+  unfold un_assertion. destruct (negb (seqb ns NS_A && seqb tag "Assertion")); [reflexivity|].
+  destruct (time_attr "IssueInstant" attrs) as [issue| |]; cbn [bind]; try reflexivity.
+  (* Subject *)
+  assert (HS : match child_ns NS_A "Subject" K' with
+               | None => Ok None
+               | Some s => do cs <- map_o un_conf (filter (tagged "SubjectConfirmation") (mg_kids s));
+                           Ok (Some (match child_any "NameID" (mg_kids s) with Some m => mg_text m | None => "" end, cs))
+               end =
+               match child_ns NS_A "Subject" kids with
+               | None => Ok None
+               | Some s => do cs <- map_o un_conf (filter (tagged "SubjectConfirmation") (mg_kids s));
+                           Ok (Some (match child_any "NameID" (mg_kids s) with Some m => mg_text m | None => "" end, cs))
+               end).
+  { unfold child_ns.
+    pose proof (child_vis (named NS_A "Subject") _ _ (named_pred NS_A "Subject" eq_refl) HK) as H.
+    destruct (merge (filter _ kids)) as [s|], (merge (filter _ K')) as [s'|]; simpl in H; try contradiction; [|reflexivity].
+    destruct H as [_ [_ Hk]].
+    rewrite (Hk _ (tagged_pred "SubjectConfirmation" eq_refl)), (map_o_map_ext _ _ un_conf _ un_conf_visible).
+    unfold child_any.
+    pose proof (child_vis (tagged "NameID") _ _ (tagged_pred "NameID" eq_refl) Hk) as Hn.
+    destruct (merge (filter (tagged "NameID") (mg_kids s))) as [m|], (merge (filter (tagged "NameID") (mg_kids s'))) as [m'|];
+      simpl in Hn; try contradiction; [|reflexivity].
+    destruct Hn as [_ [Ht _]]. rewrite Ht. reflexivity. }
+  rewrite HS. clear HS.
+  destruct (match child_ns NS_A "Subject" kids with None => _ | Some s => _ end) as [subj| |]; cbn [bind]; try reflexivity.
+  (* Conditions *)
+  assert (HC : match child_any "Conditions" K' with
+               | None => Ok None
+               | Some c => do nb <- time_attr "NotBefore" (mg_attrs c); do noa <- time_attr "NotOnOrAfter" (mg_attrs c);
+                           Ok (Some (nb, noa, map un_audience (filter (tagged "AudienceRestriction") (mg_kids c))))
+               end =
+               match child_any "Conditions" kids with
+               | None => Ok None
+               | Some c => do nb <- time_attr "NotBefore" (mg_attrs c); do noa <- time_attr "NotOnOrAfter" (mg_attrs c);
+                           Ok (Some (nb, noa, map un_audience (filter (tagged "AudienceRestriction") (mg_kids c))))
+               end).
+  { unfold child_any.
+    pose proof (child_vis (tagged "Conditions") _ _ (tagged_pred "Conditions" eq_refl) HK) as H.
+    destruct (merge (filter _ kids)) as [c|], (merge (filter _ K')) as [c'|]; simpl in H; try contradiction; [|reflexivity].
+    destruct H as [Ha [_ Hk]]. rewrite Ha, (Hk _ (tagged_pred "AudienceRestriction" eq_refl)), map_map.
+    rewrite (map_ext _ _ un_audience_visible). reflexivity. }
+  rewrite HC. clear HC.
+  destruct (match child_any "Conditions" kids with None => _ | Some c => _ end) as [cond| |]; cbn [bind]; try reflexivity.
+  f_equal. f_equal.
+  - unfold child_ns.
+    pose proof (child_vis (named NS_A "Issuer") _ _ (named_pred NS_A "Issuer" eq_refl) HK) as H.
+    destruct (merge (filter _ kids)) as [m|], (merge (filter _ K')) as [m'|]; simpl in H; try contradiction; [|reflexivity].
+    destruct H as [_ [Ht _]]. exact Ht.
+  - rewrite (HK _ (tagged_pred "AttributeStatement" eq_refl)), flat_map_map.
+    apply flat_map_ext'. exact un_attrvals_visible.
+Qed.
+
+(* ---------- canonicalisation, signature removal and KeyInfo stripping leave the visible part alone ---------- *)
+
+Fixpoint cgo (l : list node) : list node :=
+  match l with [] => [] | Cmt :: r => cgo r | k :: r => canon k :: cgo r end.
+
+Lemma canon_el ns tag attrs kids : canon (El ns tag attrs kids) = El ns tag attrs (merge_txt (cgo kids)).
+Proof. reflexivity. Qed.
+
+Lemma chardata_merge_txt l : chardata (merge_txt l) = chardata l.
+Proof.
+  induction l as [|k l IH]; [reflexivity|].
+  destruct k as [n t a ks|s| |sh u sg ki ov|cid st q]; cbn [merge_txt chardata]; try exact IH.
+  destruct (merge_txt l) as [|k' l'] eqn:E; cbn [chardata]; [rewrite <- IH; reflexivity|].
+  destruct k'; cbn [chardata]; rewrite <- IH; cbn [chardata]; try reflexivity.
+  apply app_assoc_s.
+Qed.
+
+Lemma vgo_merge_txt l : vgo (merge_txt l) = vgo l.
+Proof.
+  induction l as [|k l IH]; [reflexivity|].
+  destruct k as [n t a ks|s| |sh u sg ki ov|cid st q]; cbn [merge_txt vgo]; try (rewrite IH; reflexivity).
+  destruct (merge_txt l) as [|k' l'] eqn:E; cbn [vgo]; [rewrite <- IH; reflexivity|].
+  destruct k'; cbn [vgo]; rewrite <- IH; reflexivity.
+Qed.
+
+Lemma chardata_cgo l : chardata (cgo l) = chardata l.
+Proof.
+  induction l as [|k l IH]; [reflexivity|].
+  destruct k as [n t a ks|s| |sh u sg ki ov|cid st q]; cbn [cgo].
+  - rewrite canon_el. cbn [chardata]. exact IH.
+  - cbn [canon chardata]. rewrite IH. reflexivity.
+  - exact IH.
+  - cbn [canon chardata]. exact IH.
+  - cbn [canon chardata]. exact IH.
+Qed.
+
+Theorem visible_canon : forall n, visible (canon n) = visible n.
+Proof.
+  induction n using node_ind'; try reflexivity.
+  rewrite canon_el, !visible_el, chardata_merge_txt, chardata_cgo, vgo_merge_txt.
+  assert (vgo (cgo kids) = vgo kids) as ->; [|reflexivity].
+  induction H as [|k l Hk HF IH]; [reflexivity|].
+  destruct k as [n t a ks|s| |sh u sg ki ov|cid st q]; cbn [cgo vgo]; try exact IH.
+  - rewrite canon_el. cbn [vgo]. destruct (seqb t "Signature"); [exact IH|].
+    rewrite <- canon_el, Hk, IH. reflexivity.
+  - cbn [canon vgo]. rewrite IH. reflexivity.
+Qed.
+
+Lemma find_sig_el_shape id n u s k o rest :
+  find_sig id n = FHit u s k o rest ->
+  exists ns tag attrs kids kids', n = El ns tag attrs kids /\ rest = El ns tag attrs kids'.
+Proof.
+  destruct n as [ns tag attrs kids| | | |]; simpl; try discriminate.
+  unfold fmap. match goal with |- match ?g kids with _ => _ end = _ -> _ => destruct (g kids) eqn:E; try discriminate end.
+  intros H. inversion H; subst. eauto 7.
+Qed.
+
+(* removing the Signature goxmldsig found changes nothing the unmarshaller can see *)
+Theorem visible_find_sig id : forall n u s k o rest, find_sig id n = FHit u s k o rest -> visible rest = visible n.
+Proof.
+  induction n using node_ind'; intros uu ss kk oo rest Hf; simpl in Hf; try discriminate.
+  unfold fmap in Hf.
+  match type of Hf with match ?g kids with _ => _ end = _ => destruct (g kids) as [| |u' s' k' o' rest'] eqn:E; try discriminate end.
+  inversion Hf; subst. clear Hf. rewrite !visible_el.
+  assert (chardata rest' = chardata kids /\ vgo rest' = vgo kids) as [E1 E2]; [|rewrite E1, E2; reflexivity].
+  revert rest' E. induction H as [|x l Hx HF IH]; intros rest' E; [discriminate|].
+  destruct x as [ns' tag' at' ks'|t| |sh ur sg ki ov|cid st p].
+  - destruct (find_sig id (El ns' tag' at' ks')) as [| |u2 s2 k2 o2 r2] eqn:E2.
+    + unfold fmap in E. match type of E with match ?g l with _ => _ end = _ => destruct (g l) eqn:E3; try discriminate end.
+      inversion E; subst. destruct (IH _ eq_refl) as [A B]. cbn [chardata vgo]. rewrite A, B. split; reflexivity.
+    + discriminate.
+    + inversion E; subst.
+      destruct (find_sig_el_shape _ _ _ _ _ _ _ E2) as [n1 [t1 [a1 [k1 [k1' [Hn Hr]]]]]]. inversion Hn; subst.
+      cbn [chardata vgo]. split; [reflexivity|].
+      destruct (seqb t1 "Signature"); [reflexivity|]. rewrite (Hx _ _ _ _ _ eq_refl). reflexivity.
+  - unfold fmap in E. match type of E with match ?g l with _ => _ end = _ => destruct (g l) eqn:E3; try discriminate end.
+    inversion E; subst. destruct (IH _ eq_refl) as [A B]. cbn [chardata vgo]. rewrite A, B. split; reflexivity.
+  - unfold fmap in E. match type of E with match ?g l with _ => _ end = _ => destruct (g l) eqn:E3; try discriminate end.
+    inversion E; subst. destruct (IH _ eq_refl) as [A B]. cbn [chardata vgo]. rewrite A, B. split; reflexivity.
+  - destruct (negb sh); [discriminate|]. destruct (uri_matches ur id).
+    + inversion E; subst. split; reflexivity.
+    + unfold fmap in E. match type of E with match ?g l with _ => _ end = _ => destruct (g l) eqn:E3; try discriminate end.
+      inversion E; subst. destruct (IH _ eq_refl) as [A B]. cbn [chardata vgo]. rewrite A, B. split; reflexivity.
+  - unfold fmap in E. match type of E with match ?g l with _ => _ end = _ => destruct (g l) eqn:E3; try discriminate end.
+    inversion E; subst. destruct (IH _ eq_refl) as [A B]. cbn [chardata vgo]. rewrite A, B. split; reflexivity.
+Qed.
+
+Lemma strip_first_visible l : chardata (strip_first_keyinfo l) = chardata l /\ vgo (strip_first_keyinfo l) = vgo l.
+Proof.
+  induction l as [|x l [A B]]; [split; reflexivity|].
+  cbn [strip_first_keyinfo]. destruct (sigtagged x) eqn:E.
+  - destruct x as [ns t a ks|s| |sh u sg ki ov|cid st p]; try discriminate; cbn [chardata vgo]; [|split; reflexivity].
+    simpl in E. rewrite E. split; reflexivity.
+  - destruct x as [ns t a ks|s| |sh u sg ki ov|cid st p]; cbn [chardata vgo]; rewrite ?A, ?B; split; reflexivity.
+Qed.
+
+Theorem visible_strip e : visible (strip_keyinfo e) = visible e.
+Proof.
+  destruct e as [ns t a kids| | | |]; try reflexivity. cbn [strip_keyinfo].
+  destruct (existsb has_cert kids); [reflexivity|].
+  rewrite !visible_el. destruct (strip_first_visible kids) as [A B]. rewrite A, B. reflexivity.
+Qed.
+
+(* C01, third clause: what is returned is what unmarshalling the IdP-signed element gives *)
+Theorem covered_unmarshals_signed_content e uri signer ki over rest h :
+  find_sig (attr "ID" (node_attrs e)) (strip_keyinfo e) = FHit uri signer ki over rest ->
+  canon rest = canon h -> un_assertion e = un_assertion h.
+Proof.
+  intros Hf Hc.
+  rewrite <- (un_assertion_visible e), <- (visible_strip e), <- (visible_find_sig _ _ _ _ _ _ _ Hf),
+          <- (visible_canon rest), Hc, visible_canon. apply un_assertion_visible.
+Qed.
+
+(* candidates of two elements with the same visible part correspond *)
+Definition enc_plains (l : list node) : list node :=
+  flat_map (fun k => match k with EncN _ st p => if st =? 0 then [p] else [] | _ => [] end) l.
+
+Lemma enc_plains_vgo l : enc_plains (vgo l) = enc_plains l.
+Proof.
+  induction l as [|k l IH]; [reflexivity|].
+  destruct k as [n t a ks|s| |sh u sg ki ov|cid st q]; cbn [vgo]; try exact IH.
+  - destruct (seqb t "Signature"); [exact IH|]. rewrite visible_el. exact IH.
+  - unfold enc_plains in *. cbn [flat_map]. rewrite IH. reflexivity.
+Qed.
+
+Lemma cand_elems_visible r : 
+  map visible (cand_elems r) =
+  (map visible (enc_plains (node_kids (visible r))) ++ filter (named NS_A "Assertion") (node_kids (visible r)))%list.
+Proof.
+  destruct r as [ns t a kids| | | |]; try reflexivity.
+  unfold cand_elems. rewrite visible_el. cbn [node_kids]. rewrite map_app. f_equal.
+  - change (enc_plains (Txt (chardata kids) :: vgo kids)) with (enc_plains (vgo kids)). rewrite enc_plains_vgo. reflexivity.
+  - cbn [filter named]. symmetry. apply filter_vgo. apply (named_pred NS_A "Assertion"). reflexivity.
+Qed.
+
+Lemma cand_elems_same_visible r1 r2 e :
+  visible r1 = visible r2 -> In e (cand_elems r1) -> exists e', In e' (cand_elems r2) /\ visible e' = visible e.
+Proof.
+  intros Hv Hin. apply (in_map visible) in Hin. rewrite cand_elems_visible, Hv, <- cand_elems_visible in Hin.
+  apply in_map_iff in Hin. destruct Hin as [e' [He Hin]]. eauto.
+Qed.
+
+(* C01, complete form against an attacker without the IdP keys: the returned assertion is the
+   unmarshalling of an element the IdP signed, or of a candidate child of a Response it signed *)
+Theorem accepted_is_signed_content cfg H ids now cur r a :
+  honest_signers cfg H r ->
+  parse_xml_response cfg ids now cur (DRoot r) = Ok a ->
+  exists h, In h H /\
+    (un_assertion h = Ok a \/ exists e', In e' (cand_elems h) /\ un_assertion e' = Ok a).
+Proof.
+  intros Hh Hp. destruct (accepted_content_was_signed _ _ _ _ _ _ _ Hh Hp)
+    as [e [h [uri [signer [ki [over [rest [Hin [Hu [Hi [Hc Hf]]]]]]]]]]].
+  exists h. split; [exact Hi|]. destruct Hf as [Hf|Hf].
+  - left. rewrite <- (covered_unmarshals_signed_content _ _ _ _ _ _ _ Hf Hc). exact Hu.
+  - right.
+    assert (Hv : visible r = visible h).
+    { rewrite <- (visible_strip r), <- (visible_find_sig _ _ _ _ _ _ _ Hf), <- (visible_canon rest), Hc. apply visible_canon. }
+    destruct (cand_elems_same_visible r h e Hv Hin) as [e' [Hin' Hve]].
+    exists e'. split; [exact Hin'|]. rewrite <- (un_assertion_visible e'), Hve, un_assertion_visible. exact Hu.
+Qed.
